@@ -45,8 +45,9 @@ func NewOpenGameManagerFromState(state OpenGameState, options OpenGameOption) Op
 			Participants: make(map[string]*OpenGameParticipant),
 		},
 	}
+	rebuiltState := m.state
 	m.rg.OnCompleted(func(rg *syncsaga.ReadyGroup) {
-		m.readyGroupOnCompleted()
+		m.readyGroupOnCompleted(rebuiltState)
 	})
 
 	m.readyGroupResetParticipants()
@@ -75,13 +76,20 @@ func (m *openGameManager) Ready(participantID string) error {
 }
 
 func (m *openGameManager) Setup(gameCount int, participants map[string]int) {
-	m.state.GameCount = gameCount
-
 	m.rg.Stop()
+
+	// every set-up gets its own ready group and state: the worker and completion goroutines of the
+	// previous set-up may still be running and must neither consume the new signals nor report the new state
+	state := &OpenGameState{
+		Timeout:      m.state.Timeout,
+		GameCount:    gameCount,
+		Participants: make(map[string]*OpenGameParticipant),
+	}
+	m.state = state
+	m.rg = newReadyGroup(state.Timeout)
 	m.rg.OnCompleted(func(rg *syncsaga.ReadyGroup) {
-		m.readyGroupOnCompleted()
+		m.readyGroupOnCompleted(state)
 	})
-	m.readyGroupResetParticipants()
 	for id, idx := range participants {
 		participant := OpenGameParticipant{
 			ID:      id,
@@ -92,6 +100,17 @@ func (m *openGameManager) Setup(gameCount int, participants map[string]int) {
 	}
 
 	m.rg.Start()
+}
+
+func newReadyGroup(timeout int) *syncsaga.ReadyGroup {
+	return syncsaga.NewReadyGroup(syncsaga.WithTimeout(timeout, func(rg *syncsaga.ReadyGroup) {
+		// Auto Ready By Default
+		for idx, isReady := range rg.GetParticipantStates() {
+			if !isReady {
+				rg.Ready(idx)
+			}
+		}
+	}))
 }
 
 func (m *openGameManager) GetState() OpenGameState {
